@@ -81,6 +81,18 @@ def _alarm(signum, frame):
 
 def quiet_worker():
     warnings.simplefilter('ignore')
+    # coverage (used by pedal's 'coverage' tracer style) writes a data file in the cwd: give each worker its own
+    covdir = os.path.join(HERE, '.work', 'cov')
+    os.makedirs(covdir, exist_ok=True)
+    os.environ['COVERAGE_FILE'] = os.path.join(covdir, 'cov.%d' % os.getpid())
+    import atexit
+
+    def _rm():
+        try:
+            os.remove(os.environ['COVERAGE_FILE'])
+        except OSError:
+            pass
+    atexit.register(_rm)
     try:
         import resource
         lim = int(os.environ.get('VERIF_WORKER_MEM_GB', '6')) << 30
@@ -421,6 +433,8 @@ def main(argv=None):
                 print('INCONCLUSIVE property=%s wall budget %ss exhausted' % (pid, budget))
                 pool.terminate()
                 return 2
+    import shutil
+    shutil.rmtree(os.path.join(HERE, '.work', 'cov'), ignore_errors=True)
     errors = [r for r in results if not r.get('ok')]
     if errors:
         for e in errors[:3]:
